@@ -70,7 +70,7 @@ const CODE_LIKE: [&str; 12] = [
     "require(x > 0, \"this is a revert string that is longer than thirty two bytes\");",
 ];
 
-const MB_WS: [&str; 3] = ["\u{00A0}", "\u{2003}", "\u{3000}"];
+const MB_WS: [&str; 8] = ["\u{00A0}", "\u{2003}", "\u{3000}", "\u{2028}", "\u{2029}", "\u{0085}", "\u{000B}", "\u{000C}"];
 
 fn random_gap(rng: &Rng, ws_only: bool, must_separate: bool, out: &mut String, kinds: &mut Vec<&'static str>) {
     let n = if must_separate { rng.range(1, 3) } else { rng.range(0, 2) };
@@ -84,11 +84,11 @@ fn random_gap(rng: &Rng, ws_only: bool, must_separate: bool, out: &mut String, k
         };
         match k {
             14 => {
-                out.push_str(rng.ps(&["/* ^9.9.9 */", "/* 0.4.0 */", "/* é */", "/* >=0.1.0 <0.2.0 */", "/**/", "/* a */"]));
+                out.push_str(rng.ps(&["/* ^9.9.9 */", "/* 0.4.0 */", "/* é */", "/* >=0.1.0 <0.2.0 */", "/**/", "/* a */", "/** ^1.2.3 */", "/* a * b ^0.0.1 **/", "/* 0.8.* ^ */", "/*/ ^0.7.0 */", "/* // ^0.3.0 */", "/***\n * ^0.2.0\n ***/"]));
                 kinds.push("block-comment-inside-pragma");
             }
             15 => {
-                out.push_str(rng.ps(&["// ^0.1.2\n", "// 0.3.3\r\n", "// plain\n"]));
+                out.push_str(rng.ps(&["// ^0.1.2\n", "// 0.3.3\r\n", "// plain\n", "// sources: contracts/*.sol ^0.1.0\n", "// */ ^0.0.9\n"]));
                 kinds.push("line-comment-inside-pragma");
             }
             0 | 1 | 2 => {
